@@ -4,7 +4,7 @@ import vcommon as vc
 import importlib
 try:
     vc.build_daemon()
-    for m in ("eng_set", "eng_addr", "eng_conf", "eng_log", "eng_mod", "eng_inproc"):
+    for m in ("eng_set", "eng_addr", "eng_conf", "eng_log", "eng_mod", "eng_proto3"):
         try:
             mod = importlib.import_module(m)
         except ImportError:
